@@ -442,6 +442,24 @@ pub fn run(ctx: &Ctx) -> i32 {
     }
     part
   });
+  // exponent sweep around the critical parallels / meridians (hash_with_dxdy, all depths)
+  {
+    let pos = exponent_sweep_positions();
+    let chunk = 128usize;
+    let sweep = par_jobs((pos.len() + chunk - 1) / chunk, |job| {
+      let mut part = Part::new();
+      for &(lon, lat) in &pos[job * chunk..((job + 1) * chunk).min(pos.len())] {
+        for d in 0..30u8 {
+          part.stratum("exponent-sweep", 1, 3);
+          if let Some(v) = check_pos(d, lon, lat, &mut part) {
+            part.viol(v);
+          }
+        }
+      }
+      part
+    });
+    total.merge(sweep);
+  }
   for d in 0..30u8 {
     let nh = n_hash(d);
     let _ = nh;
